@@ -16,6 +16,9 @@ func init() {
 var helpUniverse = [][]string{{}, {"x"}, {"-f", "x"}, {"-z"}, {"--", "x"}, {"--"}}
 
 func runHelp(c *Ctx) {
+	if c.Shard == 0 && c.Begin("help-deep") {
+		deepHelp(c)
+	}
 	idx := 0
 	kinds := []int{1, 3, 8, 9}
 	for si, shape := range treeShapes(c.Thorough()) {
@@ -54,6 +57,10 @@ func runHelp(c *Ctx) {
 								w := append(append(append([]string{}, args[:pos]...), h), args[pos:]...)
 								c.Beat()
 								helpCase(c, si, shape, as, pol, w, false)
+								if pos%3 == 0 {
+									// a declared version flag that is NOT the first argument is an ordinary flag: help still wins
+									helpCase2(c, si, shape, as, pol, append([]string{"-f", "-v"}, w...), true, false)
+								}
 							}
 						}
 						// version flag in first position (and, as a control, the plain invocation)
@@ -70,7 +77,56 @@ func runHelp(c *Ctx) {
 	}
 }
 
+// deepHelp: a deep tree (4 levels below the root are reached) with several siblings at the last levels and
+// declaration-free commands (so that the same instance can be run twice): the help of every command must carry
+// its own full path, on a first run and on a second run of the same instance after another command's help.
+func deepHelp(c *Ctx) {
+	shape := mkTree("app", mkTree("c1", mkTree("d1", mkTree("e1 f1", mkTree("g1"), mkTree("g2 h2"), mkTree("g3")), mkTree("e2"), mkTree("e3 f3")), mkTree("d2")), mkTree("c2"))
+	slots := numberSlots(shape)
+	assign := make([]int, len(slots)) // kind 0 everywhere
+	var all [][]string                // the name path of every command
+	enumPaths(shape, func(target *tnode, names []string) {
+		if len(names) > 0 && names[len(names)-1] == target.aliases[0] {
+			all = append(all, append([]string{}, names...))
+		}
+	})
+	for pol := 0; pol < 3; pol++ {
+		for _, p := range all {
+			for _, h := range []string{"-h", "--help"} {
+				helpCase(c, 99, shape, assign, pol, append(append([]string{}, p...), h), false)
+			}
+			// second run on the same instance: first the help of the parent command, then this one's
+			if len(p) < 2 {
+				continue
+			}
+			for up := 1; up <= 2 && up < len(p); up++ {
+				app, tr := buildTree(shape, treeOpts{kinds: assign, rootPol: pol, hooks: true})
+				runIsolated(func() error { return app.Run(append(append([]string{"app"}, p[:len(p)-up]...), "--help")) })
+				tr.calls = nil
+				args := append(append([]string{}, p...), "-h")
+				o := runIsolated(func() error { return app.Run(append([]string{"app"}, args...)) })
+				c.Count("evaluations", 1)
+				c.Count("nontrivial", 1)
+				c.Count("second_runs_on_same_instance", 1)
+				cur := shape
+				for _, nm := range p {
+					cur = cur.kid(nm)
+				}
+				if !hasUsageOf(o.Stderr, cur) || len(tr.calls) != 0 || o.Panicked {
+					c.Violation("C14", fmt.Sprintf("tree=%s policy=%d first Run %q --help, then on the same instance %q", shapeText(shape), pol, p[:len(p)-up], args),
+						Case{"shape": 99, "kinds": assign, "policy": pol, "args": args}, "long help of "+cur.path()+" printed, nothing runs", fmt.Sprintf("calls=%v panicked=%v stderr=%q", tr.calls, o.Panicked, firstLines(o.Stderr, 3)))
+				}
+			}
+		}
+	}
+	c.Note("deep tree", shapeText(shape)+": declaration-free commands; help of every command (first run), and on a second run of the same instance after the help of its parent / grandparent")
+}
+
 func replayHelp(c *Ctx, cs Case) {
+	if cInt(cs, "shape") == 99 {
+		deepHelp(c) // small: re-run the whole deep-tree enumeration
+		return
+	}
 	shape := treeShapes(true)[cInt(cs, "shape")]
 	numberSlots(shape)
 	var assign []int
@@ -78,21 +134,27 @@ func replayHelp(c *Ctx, cs Case) {
 		assign = append(assign, int(x.(float64)))
 	}
 	ver, _ := cs["version"].(bool)
-	helpCase(c, cInt(cs, "shape"), shape, assign, cInt(cs, "policy"), cStrs(cs, "args"), ver)
+	vd, _ := cs["version_declared"].(bool)
+	helpCase2(c, cInt(cs, "shape"), shape, assign, cInt(cs, "policy"), cStrs(cs, "args"), vd || ver, ver)
 }
 
 func isHelp(t string) bool { return t == "-h" || t == "--help" }
 
 func helpCase(c *Ctx, si int, shape *tnode, assign []int, pol int, args []string, version bool) {
+	helpCase2(c, si, shape, assign, pol, args, version, version)
+}
+
+// versionDeclared: the root declares Version("v version"); version: the invocation is expected to print it
+func helpCase2(c *Ctx, si int, shape *tnode, assign []int, pol int, args []string, versionDeclared, version bool) {
 	c.Count("evaluations", 1)
 	key := fmt.Sprintf("tree=%s specs=%s policy=%d args=%q", shapeText(shape), specsText(shape, assign), pol, args)
-	if version {
+	if versionDeclared {
 		key += " version-flag-declared"
 	}
 	cs := func() Case {
-		return Case{"shape": si, "kinds": assign, "policy": pol, "args": args, "version": version}
+		return Case{"shape": si, "kinds": assign, "policy": pol, "args": args, "version": version, "version_declared": versionDeclared}
 	}
-	app, tr := buildTree(shape, treeOpts{kinds: assign, rootPol: pol, hooks: true, version: version})
+	app, tr := buildTree(shape, treeOpts{kinds: assign, rootPol: pol, hooks: true, version: versionDeclared})
 	o := runIsolated(func() error { return app.Run(append([]string{"app"}, args...)) })
 	obs := fmt.Sprintf("calls=%v returned=%v err=%v panicked=%v panicval=%v exits=%v stderr=%q", tr.calls, o.Returned, o.Err, o.Panicked, safeSprint(o.PanicVal), o.Exits, firstLines(o.Stderr, 3))
 	quiet := func(what string) bool { // nothing ran; exit 0 under ExitOnError, nil otherwise
